@@ -171,6 +171,12 @@ def join(a, b):
     if a.k == b.k and a.k in ('ids', 'md', 'index') and a.ax and b.ax \
             and a.ax != b.ax:
         return V(a.k, ax=None, c=('conflict', a.ax, b.ax))
+    if a.k == b.k == 'method' and a.c != b.c and a.c and b.c and \
+            a.own == b.own:
+        ca = a.c if isinstance(a.c, tuple) else (a.c,)
+        cb = b.c if isinstance(b.c, tuple) else (b.c,)
+        return V('method', own=a.own, c=tuple(sorted(set(ca) | set(cb))),
+                 node=a.node)
     if dtc(a) and dtc(b):
         return V('dtype', c=dtc(a) if dtc(a) == dtc(b) else 'mixed')
     if a.k == b.k == 'dict' and (a.ax or b.ax) and not (
@@ -1617,6 +1623,22 @@ class AxisInterp:
                 return self.call_local(fv, e, env)
             if fv.k == 'class':
                 return self.ctor(e, env, 'cls')
+            if fv.k == 'method' and fv.c and isinstance(fv.node,
+                                                        ast.Attribute):
+                # a bound method kept in a variable:  g = self.m ; g(a, b)
+                recv = self.ev(fv.node.value, env)
+                if recv.k == 'table':
+                    res = None
+                    for mname in (fv.c if isinstance(fv.c, tuple)
+                                  else (fv.c,)):
+                        fnode = ast.copy_location(ast.Attribute(
+                            value=fv.node.value, attr=mname,
+                            ctx=ast.Load()), fv.node)
+                        call2 = ast.copy_location(ast.Call(
+                            func=fnode, args=e.args, keywords=e.keywords), e)
+                        r = self.table_method(call2, recv, mname, env)
+                        res = r if res is None else join(res, r)
+                    return res if res is not None else TOP
         if name in ('Table',):
             return self.ctor(e, env, 'Table')
         if name in ('self.__class__', 'cls') or (
